@@ -295,6 +295,14 @@ func (k *KWorld) fsop(s KStep, observe bool) error {
 		strk, dtrk := trackable(src, p), trackable(dst, q)
 		sfw, dfw := k.fileWatch(p), k.fileWatch(q)
 		_, dcov := k.cover(filepath.Dir(q))
+		if dfw != nil && dst.ok && !dcov {
+			// overwriting a file the user watches directly, in a directory that
+			// is not watched: what happens to that file watch is outside the
+			// directory properties C17/C18 (the recorded expectation
+			// watch-file/overwrite-watched-file covers it); the step is skipped
+			k.Feat["overwrite-of-lone-file-watch-skipped"]++
+			return syscall.EEXIST
+		}
 		err := kRename(p, q)
 		if err != nil {
 			return err
